@@ -57,6 +57,8 @@ func (r *Run) callVF(caller *frame, pos token.Pos, fn *ssa.Function, args []Valu
 		label := strArg(args[0])
 		n := r.concInt(args[1], "vf.BytesN n")
 		return r.symBytes(label, int(n))
+	case "OpaqueBytes":
+		return Slice{S: []Value{}, SymLen: args[0].(*Term)}
 	case "Choose":
 		label := strArg(args[0])
 		n := int(r.concInt(args[1], "vf.Choose n"))
